@@ -1,13 +1,12 @@
 (* Case runner for the C20 correspondence: runs the converters of Model/Sheet.v on literal rows and renders the
-   result as one line of JSON text.  Leaves are tagged strings: "s:<text>", "q:<num>/<den>", "z:<int>", null, true,
-   false, so that the harness can compare numbers exactly / with a tolerance. *)
+   result as one line of JSON text; rationals are rendered as [num, den] (the harness decodes by position). *)
 From Coq Require Import QArith.
 From Verif Require Import Prelude Model.Sheet.
 Open Scope Z_scope.
 Open Scope string_scope.
 Open Scope list_scope.
 
-Inductive jv := JNull | JB (b : bool) | JS (s : string) | JQ (q : Q) | JZ (z : Z) | JA (l : list jv)
+Inductive jv := JNull | JB (b : bool) | JS (s : string) | JN (z : Z) | JA (l : list jv)
               | JO (l : list (string * jv)).
 
 Fixpoint esc (s : string) : string :=
@@ -19,62 +18,69 @@ Fixpoint esc (s : string) : string :=
       else String c (esc t)
   end.
 Definition quote (s : string) : string := String """" (esc s +s String """" EmptyString).
-Definition qs (q : Q) : string := let r := Qred q in zs (Qnum r) +s "/" +s zs (Zpos (Qden r)).
 Fixpoint jrender (v : jv) : string :=
   match v with
   | JNull => "null"
   | JB true => "true"
   | JB false => "false"
-  | JS s => quote ("s:" +s s)
-  | JQ q => quote ("q:" +s qs q)
-  | JZ z => quote ("z:" +s zs z)
+  | JS s => quote s
+  | JN z => zs z
   | JA l => "[" +s join "," (map jrender l) +s "]"
   | JO l => "{" +s join "," (map (fun kv => quote (fst kv) +s ":" +s jrender (snd kv)) l) +s "}"
   end.
 
 Definition jos (o : option string) : jv := match o with Some s => JS s | None => JNull end.
-Definition joq (o : option Q) : jv := match o with Some q => JQ q | None => JNull end.
 Definition juid (u : uid) : jv := JS (render u).
 
-Definition loc_json (l : loc) : jv :=
-  JO ((match lc_city l with Some c => [("city", JS c)] | None => [] end) ++
-      (match lc_region l with Some c => [("region", JS c)] | None => [] end) ++
-      [("latitude", JQ (lc_lat l)); ("longitude", JQ (lc_lon l))]).
-Definition oper_json (o : oper) : jv :=
-  JO [("gain_target", joq (op_gain o)); ("delta_p", joq (op_dp o)); ("tilt_target", joq (op_tilt o));
-      ("out_voa", joq (op_out_voa o)); ("in_voa", JQ (op_in_voa o))].
-Definition content_json (c : content) : list (string * jv) :=
-  match c with
-  | CTrx => [("type", JS "Transceiver")]
-  | CRoadm v r p =>
-      [("type", JS "Roadm")] ++
-      (match v with Some s => [("type_variety", JS s)] | None => [] end) ++
-      (match r, p with
-       | None, None => []
-       | _, _ => [("params", JO (
-            (match r with
-             | Some (pre, boo) => [("restrictions", JO [("preamp_variety_list", JA (map JS pre));
-                                                        ("booster_variety_list", JA (map JS boo))])]
-             | None => [] end) ++
-            (match p with
-             | Some l => [("per_degree_pch_out_db", JA (map (fun kv => JA [juid (fst kv); JQ (snd kv)]) l))]
-             | None => [] end)))]
-       end)
-  | CFused l0 => [("type", JS "Fused")] ++ (if l0 then [("params", JO [("loss", JQ 0)])] else [])
-  | CFiber v len lc ci co p2 =>
-      [("type", JS "Fiber"); ("type_variety", JS v);
-       ("params", JO ([("length", JQ len); ("length_units", JS "km"); ("loss_coef", JQ lc);
-                       ("con_in", joq ci); ("con_out", joq co)] ++
-                      (match p2 with Some x => [("pmd_coef_sq", JQ x)] | None => [] end)))]
-  | CEdfaAuto => [("type", JS "Edfa"); ("operational", JO [("gain_target", JNull); ("tilt_target", JNull)])]
-  | CEdfa v o => [("type", JS "Edfa")] ++ (match v with Some s => [("type_variety", JS s)] | None => [] end) ++
-                 [("operational", oper_json o)]
+(* Compact positional rendering of a network (the cost of a run is the size of the printed string):
+     [ locs, elements, connections ]
+     loc        [city|null, region|null, lat, lon]            distinct locations, referred to by index
+     element    [uid, loc index, kind, payload...]
+                "T" | "R",variety|null,[pre,boo]|null,[[uid,q]..]|null | "F",true|false
+                | "B",variety,length,loss_coef,con_in|null,con_out|null,pmd_coef_sq|null | "A" | "E",variety|null,[g,dp,tilt,out,in]
+     connection [i, j]  positions of the first elements carrying the two uids (the uid itself when there is none)
+   rationals are [num, den]. *)
+Definition jq (q : Q) : jv := let r := Qred q in JA [JN (Qnum r); JN (Zpos (Qden r))].
+Definition joq (o : option Q) : jv := match o with Some q => jq q | None => JNull end.
+Definition ostr_eqb (a b : option string) : bool :=
+  match a, b with Some x, Some y => seqb x y | None, None => true | _, _ => false end.
+(* same fraction, syntactically (multiplying 50-bit numerators is what makes Qeq_bool slow); a missed
+   identification only costs a repeated entry in the table *)
+Definition qsame (a b : Q) : bool := Z.eqb (Qnum a) (Qnum b) && Pos.eqb (Qden a) (Qden b).
+Definition loc_eqb (a b : loc) : bool :=
+  ostr_eqb (lc_city a) (lc_city b) && ostr_eqb (lc_region a) (lc_region b) &&
+  qsame (lc_lat a) (lc_lat b) && qsame (lc_lon a) (lc_lon b).
+Fixpoint index_of {A} (p : A -> bool) (l : list A) (k : Z) : option Z :=
+  match l with [] => None | x :: t => if p x then Some k else index_of p t (k + 1) end.
+Fixpoint dedup_locs (l : list loc) (acc : list loc) : list loc :=
+  match l with
+  | [] => rev acc
+  | x :: t => if existsb (loc_eqb x) acc then dedup_locs t acc else dedup_locs t (x :: acc)
   end.
-Definition el_json (e : element) : jv :=
-  JO ([("uid", juid (el_uid e)); ("metadata", JO [("location", loc_json (el_loc e))])] ++ content_json (el_c e)).
+Definition loc_json (l : loc) : jv := JA [jos (lc_city l); jos (lc_region l); jq (lc_lat l); jq (lc_lon l)].
+Definition oper_json (o : oper) : jv :=
+  JA [joq (op_gain o); joq (op_dp o); joq (op_tilt o); joq (op_out_voa o); jq (op_in_voa o)].
+Definition content_json (c : content) : list jv :=
+  match c with
+  | CTrx => [JS "T"]
+  | CRoadm v r p =>
+      [JS "R"; jos v;
+       match r with Some (pre, boo) => JA [JA (map JS pre); JA (map JS boo)] | None => JNull end;
+       match p with Some l => JA (map (fun kv => JA [juid (fst kv); jq (snd kv)]) l) | None => JNull end]
+  | CFused l0 => [JS "F"; JB l0]
+  | CFiber v len lc ci co p2 => [JS "B"; JS v; jq len; jq lc; joq ci; joq co; joq p2]
+  | CEdfaAuto => [JS "A"]
+  | CEdfa v o => [JS "E"; jos v; oper_json o]
+  end.
+Definition el_json (locs : list loc) (e : element) : jv :=
+  JA (juid (el_uid e) :: match index_of (loc_eqb (el_loc e)) locs 0 with Some k => JN k | None => JNull end
+      :: content_json (el_c e)).
+Definition uid_ref (els : list element) (u : uid) : jv :=
+  match index_of (fun e => uid_eqb (el_uid e) u) els 0 with Some k => JN k | None => juid u end.
 Definition net_json (n : net) : jv :=
-  JO [("elements", JA (map el_json (elements n)));
-      ("connections", JA (map (fun c => JA [juid (fst c); juid (snd c)]) (connections n)))].
+  let locs := dedup_locs (map el_loc (elements n)) [] in
+  JA [JA (map loc_json locs); JA (map (el_json locs) (elements n));
+      JA (map (fun c => JA [uid_ref (elements n) (fst c); uid_ref (elements n) (snd c)]) (connections n))].
 
 Definition conv_case (w : rows) : string :=
   match convert w with Ok n => jrender (net_json n) | Err e => "E:" +s e end.
@@ -83,10 +89,10 @@ Definition conv_case (w : rows) : string :=
 Definition req_json (r : request) : jv :=
   JO [("request-id", jos (r_id r)); ("source", JS (r_src r)); ("destination", JS (r_dst r));
       ("bidirectional", JB (r_bidir r)); ("trx_type", JS (r_trx r)); ("trx_mode", jos (r_mode r));
-      ("spacing", JQ (r_spacing_hz r)); ("power_dbm", joq (r_power_dbm r));
-      ("max-nb-of-channel", match r_nbch r with Some z => JZ z | None => JNull end);
-      ("path_bandwidth", JQ (r_bw_bps r));
-      ("route", JA (map (fun kv => JA [JZ (fst kv); JS (snd kv)]) (route_objects r)));
+      ("spacing", jq (r_spacing_hz r)); ("power_dbm", joq (r_power_dbm r));
+      ("max-nb-of-channel", match r_nbch r with Some z => JN z | None => JNull end);
+      ("path_bandwidth", jq (r_bw_bps r));
+      ("route", JA (map (fun kv => JA [JN (fst kv); JS (snd kv)]) (route_objects r)));
       ("loose", JB (r_loose r));
       ("sync", match pathsync r with
                | Some (i, l) => JA [jos i; JA (map jos l)]
